@@ -140,7 +140,7 @@ func vfNewVT() *vfVT {
 	w := vfGeom([]uint32{1, 2, 3}, []uint32{1, 2, 3, 4}, "width")
 	h := vfGeom([]uint32{1, 2}, []uint32{1, 2, 3}, "height")
 	s := vfGeom([]uint32{0, 1}, []uint32{0, 1, 2}, "scrollback")
-	tab := vfGeom([]uint32{0, 2}, []uint32{0, 1, 3}, "tab")
+	tab := vfGeom([]uint32{0, 2, 129}, []uint32{0, 1, 3, 128, 255}, "tab")
 	v := &vfVT{g: &vfGrid{w: w, h: h}}
 	v.n = int(w * (h + s) * 3)
 	t := NewVT(uint8(tab), s)
@@ -287,7 +287,7 @@ func Verif_C18_vt_vga_sync() {
 	w := vfGeom([]uint32{1, 2, 3}, []uint32{1, 2, 3, 4}, "width")
 	h := vfGeom([]uint32{1, 2}, []uint32{1, 2, 3}, "height")
 	s := vfGeom([]uint32{0, 1}, []uint32{0, 1, 2}, "scrollback")
-	tab := vfGeom([]uint32{0, 2}, []uint32{0, 1, 3}, "tab")
+	tab := vfGeom([]uint32{0, 2, 129}, []uint32{0, 1, 3, 128, 255}, "tab")
 	cons := console.NewVgaTextConsole(w, h, 0)
 	fb := make([]uint16, w*h)
 	console.VerifVgaSetFb(cons, fb)
